@@ -11,7 +11,7 @@
     key-sorted list of live entries; [abs_block s] the same without the transaction cache. *)
 From Coq Require Import List Bool NArith.
 Import ListNotations.
-From Ont Require Import Lib.Bytes Model.KV Gen.KVConsts Proofs.KV.
+From Ont Require Import Lib.Bytes Model.KV Gen.KVConsts Proofs.KV Proofs.KVLive.
 Local Open Scope N_scope.
 
 (** (0) What "one ordered map" means: the abstraction is strictly ascending in bytes.Compare
@@ -148,6 +148,27 @@ Proof.
 Qed.
 Print Assumptions c04_history_refines.
 
+(** (10) Iteration interleaved with writes (the MemDB iterator is live: it reads the skip list at
+    every Next). If every CacheDB write made between two Next calls lands at or behind the key the
+    iterator currently shows, or outside its prefix — the pattern of CleanContractStorageData
+    (delete the current key) and MigrateContractStorage (delete the current key, put under another
+    address) — the iteration yields exactly what it would have yielded without the writes: the
+    first [length steps + 1] entries of the listing at First (all, if shorter), and the stack ends
+    with exactly those writes applied. Proved for the exact nested JoinIter state machine with the
+    environment changing under it (Proofs/KVLive.v). Writes AHEAD of the cursor are modelled and
+    covered by the correspondence, but no statement is made about them (the code gives none). *)
+Theorem c04_live_iteration_behind : forall pfx s p steps, good_state s = true ->
+  steps_behind pfx p (with_prefix (pkey pfx p) (abs s)) steps ->
+  cache_live_iterate pfx s p steps =
+    (strip_keys (live_expect (with_prefix (pkey pfx p) (abs s)) steps), true,
+     live_final pfx s (with_prefix (pkey pfx p) (abs s)) steps).
+Proof.
+  intros pfx s p steps H Hb. apply good_state_good in H.
+  pose proof (good_wf s H) as (Wc & Wo & Wst & _ & _). destruct H as (Hs & _).
+  apply cache_live_behind; assumption.
+Qed.
+Print Assumptions c04_live_iteration_behind.
+
 (** Non-vacuity: a concrete stack with a key in all three layers, tombstones in cache and overlay,
     an empty value in the store, a neighbouring prefix (ST_STORAGE+1 = the range limit) and a 0xff
     key; the hypotheses hold and the iterator / Get results are the expected non-trivial ones. *)
@@ -167,3 +188,21 @@ Example c04_nonvacuous :
      ObsList [([97], [1]); ([100], [4]); ([255], [7])] true;
      ObsList [([5; 97], [1]); ([5; 100], [4]); ([5; 255], [7])] true; ObsVal []].
 Proof. vm_compute. repeat split; reflexivity. Qed.
+
+(** Non-vacuity of (10): deleting the current key at every step (CleanContractStorageData) on the
+    same stack: the hypothesis holds, all four live keys are visited, none survives. *)
+Example c04_nonvacuous_live :
+  let steps := [[WDel [97]]; [WDel [100]]; [WDel [102]]; [WDel [255]]] in
+  steps_behind ST_STORAGE [] (with_prefix (pkey ST_STORAGE []) (abs ex_state)) steps /\
+  fst (cache_live_iterate ST_STORAGE ex_state [] steps) =
+    ([([97], [1]); ([100], [4]); ([102], [6]); ([255], [7])], true) /\
+  cache_iterate ST_STORAGE (snd (cache_live_iterate ST_STORAGE ex_state [] steps)) [] = ([], true).
+Proof.
+  split.
+  - replace (with_prefix (pkey ST_STORAGE []) (abs ex_state))
+      with [([5; 97], [1]); ([5; 100], [4]); ([5; 102], [6]); ([5; 255], [7])] by (vm_compute; reflexivity).
+    cbn [steps_behind fst].
+    repeat split; apply Forall_cons; try apply Forall_nil;
+      (split; [reflexivity | left; unfold kle; vm_compute; discriminate]).
+  - vm_compute. split; reflexivity.
+Qed.
